@@ -624,6 +624,41 @@ def check_sv_move(ck, fn):
     ck.ok("SV-OWNER", fn.full + (" move-ctor" if fn.kind == "ctor" else " move-assign"), "takes (size_, array_), source nulled")
 
 
+def check_capacity(ck, fn):
+    """wherever the ring's capacity is computed it must exceed the promised max_size by at least one slot: begin_ == end_ means
+    empty, so a ring with capacity == max_size looks empty when it is full"""
+    sites = []
+    for i in fn.inits:
+        if i.get("field") == "capacity_" or i.get("name") == "capacity_" or i.get("init") == "capacity_":
+            if i.get("e") is not None:
+                sites.append(i["e"])
+    for x in fn.nodes():
+        b = match.binop(x, ("=",)) if x["k"] == "BinaryOperator" else None
+        if b and match.this_field(b[1]) == "capacity_":
+            sites.append(b[2])
+    n = 0
+    for e in sites:
+        calls = [z for z in ir.walk(e) if "callee" in z and z["callee"]["name"] == "round_up_to_power_of_two"]
+        if not calls:
+            continue          # copied from another ring / zero
+        n += 1
+        arg = strip_casts(kids(calls[0])[0])
+        b = match.binop(arg, ("+",))
+        base = b[1] if b else arg
+        extra = const_int(b[2]) if b else 0
+        is_max = ir.ref_name(base) == "max_size" or match.this_field(base) == "max_size_"
+        tag = "%s::%s" % (fn.record.split("::")[-1], fn.name)
+        if not is_max:
+            raise dtable.Undecidable("%s: capacity is not computed from the maximum size: %s" % (fn.nloc(calls[0]), dtable.describe(arg)))
+        if extra is None or extra < 1:
+            ck.violation("CAPACITY-SPARE-SLOT", fn.qname, "%s:%s" % (fn.name, dtable.describe(arg)),
+                         "the capacity is round_up_to_power_of_two(%s): for a max_size that is a power of two the ring has exactly max_size slots, a full ring "
+                         "has end_ == begin_ and reports size() == 0 (elements are then leaked and overwritten)" % dtable.describe(arg), fn.nloc(calls[0]))
+        else:
+            ck.ok("CAPACITY-SPARE-SLOT", "%s [%s]" % (tag, dtable.describe(arg)), "capacity > max_size")
+    return n
+
+
 def run(ck):
     ck.explanation = (
         "RingBuffer: each primitive mutator is reduced to its ordered effects (construct slot / destroy slot / cursor update) "
@@ -649,6 +684,7 @@ def run(ck):
                 if fn.d.get("copy_ctor") or fn.d.get("copy_assign"):
                     check_copy_loop(ck, fn)
                 check_cursor_reset(ck, fn)
+                check_capacity(ck, fn)
             if nd:
                 check_sv_modes(ck, tu)
                 for fn in tu.find(record=SV):
@@ -673,3 +709,4 @@ def run(ck):
     ck.floor("SV-RESIZE-ORDER", 1 * len(types))
     ck.floor("SV-COUPLED", 4 * len(types))
     ck.floor("CURSOR-RESET", 2 * n)
+    ck.floor("CAPACITY-SPARE-SLOT", 3 * n)
